@@ -1,7 +1,8 @@
 /-
   Rivia.Lemmas.ReachInv — the side invariants of the C01 refinement theorems along histories.
 
-  * `EntriesOk` (`RefineA`): per entry `dir = !file`, the mode carries the type bits of the kind, a link
+  * `EntriesOk` (`RefineA`): per entry `dir = !file`, the mode is canonical (the type bits of the kind plus
+    permission bits only — `mode_canon_of_entryOk`; holds since the `mode_type_bits` repair), a link
     has a target and `rel` is that target relative to the link's directory;
   * `KeysW` (= `Lemmas.KeysWf` of CopyMove): every name of every key and of the cwd is a proper name
     (non-empty, no `/`, not `.`, not `..`) — stronger than the `KeysWf` of the C03 induction, which
@@ -38,19 +39,49 @@ theorem entryOk_setMode {k : FsPath} {e : Entry} (m : Nat) (h : RefineA.entryOkB
   simp only [RefineA.entryOkB, Bool.and_eq_true, decide_eq_true_eq, Bool.or_eq_true,
     Bool.not_eq_true'] at h ⊢
   obtain ⟨⟨h1, _⟩, h3⟩ := h
-  refine ⟨⟨h1, ?_⟩, h3⟩
-  rw [hk]
-  show optsMode e.link e.file e.dir (some m) &&& typeBits (kindOf e) = typeBits (kindOf e)
-  unfold optsMode kindOf
-  cases hl : e.link <;> cases hf : e.file <;> rw [hf] at h1 <;> simp only [Bool.not_false, Bool.not_true] at h1 <;>
-    simp only [h1, Bool.false_eq_true, if_false, if_true, typeBits, Option.getD_some] <;>
-    exact RefineA.or_and_self _ _
+  have hm : (e.setMode m).mode = (m &&& 0o7777) ||| typeBits (kindOf e) := by
+    show optsMode e.link e.file e.dir (some m) = _
+    rw [ModeBits.optsMode_some]
+    unfold kindOf
+    cases hl : e.link <;> cases hf : e.file <;> rw [hf] at h1 <;>
+      simp only [Bool.not_false, Bool.not_true] at h1 <;>
+      simp only [h1, Bool.false_eq_true, if_false, if_true, typeBits]
+  have hT : typeBits (kindOf e) = 0o40000 ∨ typeBits (kindOf e) = 0o100000 ∨ typeBits (kindOf e) = 0o120000 := by
+    cases kindOf e <;> simp [typeBits]
+  refine ⟨⟨h1, ?_, ?_⟩, h3⟩
+  · rw [hk, hm]; exact RefineA.or_and_self _ _
+  · rw [hk, hm, ModeBits.or_sub_typeBits _ _ (ModeBits.and_perm_lt m) hT]
+    exact ModeBits.and_perm_lt m
 
 theorem entriesOk_mem {s : State} (h : EOk s) {kv : FsPath × Entry} (hm : kv ∈ s.entries) :
     RefineA.entryOkB kv.1 kv.2 = true := List.all_eq_true.mp h _ hm
 
 theorem entriesOk_at {s : State} (h : EOk s) {k : FsPath} {e : Entry} (hk : alLookup k s.entries = some e) :
     RefineA.entryOkB k e = true := entriesOk_mem h (RefineA.mem_of_alLookup hk)
+
+/-- `EntriesOk` makes every stored mode canonical: permission bits plus the type bits of the kind
+    (and so its `S_IFMT` bits are exactly the type bits of the kind) -/
+theorem mode_canon_of_entryOk {k : FsPath} {e : Entry} (h : RefineA.entryOkB k e = true) :
+    (e.mode &&& 0o7777) ||| typeBits (kindOf e) = e.mode ∧ e.mode &&& 0o170000 = typeBits (kindOf e) := by
+  simp only [RefineA.entryOkB, Bool.and_eq_true, decide_eq_true_eq] at h
+  obtain ⟨hw, hp⟩ := h.1.2
+  have hm := RefineA.or_sub_of_and_eq _ _ hw
+  have hT0 : typeBits (kindOf e) &&& 0o7777 = 0 := by cases kindOf e <;> simp [typeBits]
+  have hTT : typeBits (kindOf e) &&& 0o170000 = typeBits (kindOf e) := by
+    cases kindOf e with
+    | dir => exact (by decide : (0o40000 : Nat) &&& 0o170000 = 0o40000)
+    | file => exact (by decide : (0o100000 : Nat) &&& 0o170000 = 0o100000)
+    | link b => exact (by decide : (0o120000 : Nat) &&& 0o170000 = 0o120000)
+  generalize typeBits (kindOf e) = T at *
+  generalize hq : e.mode - T = q at *
+  have hq' : q &&& 0o7777 = q := ModeBits.and_perm_of_lt q hp
+  have h1 : e.mode &&& 0o7777 = q := by
+    rw [← hm, Nat.and_or_distrib_right, hT0, hq']; simp
+  constructor
+  · rw [h1, Nat.or_comm]; exact hm
+  · have := ModeBits.type_of_or q T hTT
+    rw [hq', Nat.or_comm, hm] at this
+    exact this
 
 /-! ### group A (46 constructors) through `StepAInv` -/
 
@@ -349,13 +380,14 @@ theorem entryOk_linkEntry (l t : FsPath) (b : Bool) : RefineA.entryOkB l (linkEn
   have hk : kindOf (linkEntry l t b) = .link b := rfl
   simp only [RefineA.entryOkB, hk, typeBits, Bool.and_eq_true, decide_eq_true_eq, Bool.or_eq_true,
     Bool.not_eq_true']
-  refine ⟨⟨?_, ?_⟩, Or.inr ?_⟩
+  have hm : (linkEntry l t b).mode = 0o120777 := by
+    show optsMode true (!b) b none = 0o120777
+    rw [ModeBits.optsMode_none]; rfl
+  refine ⟨⟨?_, ?_, ?_⟩, Or.inr ?_⟩
   · show b = !(!b)
     cases b <;> rfl
-  · show optsMode true (!b) b none &&& 0o120000 = 0o120000
-    unfold optsMode
-    simp only [if_true]
-    exact RefineA.or_and_self _ _
+  · rw [hm]; decide
+  · rw [hm]; decide
   · show decide (relative (renderP t) (renderP l.dropLast) = relative (renderP t) (renderP l.dropLast)) = true
     simp
 
@@ -454,7 +486,7 @@ theorem modeOk_of_entriesOk {s : State} (h : EOk s) : RefineB.ModeOk s := by
   intro kv hkv
   have h1 := entriesOk_mem h hkv
   simp only [RefineA.entryOkB, Bool.and_eq_true, decide_eq_true_eq] at h1
-  have h2 := h1.1.2
+  have h2 := h1.1.2.1
   have : typeBits (kindOf kv.2) ≤ kv.2.mode := by
     rw [← h2]; exact Nat.and_le_left
   exact Nat.le_trans (typeBits_ge _) this
